@@ -179,6 +179,9 @@ def check_trans(res, scratch, tier, seed, prop, matrix, rule):
     corpus_part(res, scratch, tier, seed, prop, matrix, ("curated", "amb_chains", "random_trans", "random_amb"), trees=True, builds=builds, mems=(0, 0, 1, 2))
     # inputs of 7-13 tokens: membership of every returned tree decided by TLC (Member.tla) instead of enumerating all translations
     long_trace_part(res, scratch, tier, seed, builds, (prop,))
+    if prop in ("C02", "C03"):
+        # the walk of make_parse itself: recorded parse states and reductions against MakeParse.tla
+        mp_trace_part(res, scratch, tier, seed, builds, prop, ones=((1,) if prop == "C02" else (0,)))
     if prop in ("C03", "C05"):
         # completeness on inputs of 6-11 tokens: the number of denoted trees against the number of derivations counted by TLC
         count_trace_part(res, scratch, tier, seed, builds, (prop,))
@@ -1306,6 +1309,92 @@ def check_C12(res, scratch, tier, seed):
     res.cov["samples"].append({"text_mutation": muts[len(muts) // 2].decode(errors="replace")})
 
 
+# ------------------------------------------------------------------ translation walk (MpTrace.tla over MakeParse.tla): part of C02 and C03
+def mp_lines_from_recs(recs, vecs, code, max_events=500, max_tokens=10):
+    """Trace lines for MpTrace.tla: the symbols of the final parser list (folded from the SET events) and the MPS events of the parse."""
+    lines, skipped = [], 0
+    for r in recs:
+        if r.get("k") != "parse" or r["n"] > max_tokens or r.get("rc") != 0 or not r.get("root"):
+            continue
+        vec = vecs.get(r["g"])
+        if not vec:
+            continue
+        c2n = {code(t["c"]): t["n"] for t in vec["terms"]}
+        c2n[-2] = 0
+        c2n[-1] = -1
+        syms, mp, bad = [], [], False
+        for ev in r.get("ev", []):
+            if ev["k"] == 1:
+                if ev["a"] == 0:
+                    syms = []
+                elif ev["a"] - 1 > len(syms) or ev["f"] not in c2n:
+                    bad = True
+                else:
+                    syms = syms[:ev["a"] - 1] + [c2n[ev["f"]]]
+            elif ev["k"] == 6:
+                mp.append([ev["a"], ev["b"], ev["c"], ev["d"], ev["e"]])
+        if bad or not mp or len(mp) > max_events or len(syms) != mp[0][4]:
+            skipped += 1
+            continue
+        lines.append({"id": "%s/%s/%d,%d,%d,%d" % (r["g"], r["w"], r["la"], r["one"], r["cost"], r["rec"]), "terms": [t["n"] for t in vec["terms"]],
+                      "rules": vec["rules"], "syms": syms, "all": 0 if (r["one"] and not r["cost"]) else 1, "mp": mp})
+    return lines, skipped
+
+
+def mp_trace_part(res, scratch, tier, seed, builds, prop, ones):
+    """Record the translation walk of make_parse (hook MPS: every parse state processed, every reduction taken) on corpus parses and let
+    TLC validate it against MakeParse.tla over the ideal Earley sets (MpTrace.tla); before that TLC checks the design of the walk itself
+    (MCMakeParse!WalkDesign: the walk is sound and the translations read off the chart are Trans!Translations)."""
+    import concurrent.futures as cf
+    t = run_tlc(scratch, "MCMakeParse", mcgram_cfg([1, 2], [11, 12], 2, 2, 3, False, [0, 1, 4, 5, 6], True, invariants=("WalkDesign",)), "walk_design", timeout=1500)
+    if t["status"] != "ok":
+        if t["status"] == "violation":
+            res.violation("design|MCMakeParse!WalkDesign violated", {"tail": t["tail"][-1500:]})
+        else:
+            raise Infra("TLC MCMakeParse: %s\n%s" % (t["status"], t["tail"][-2500:]))
+    res.cov["states"] += t.get("distinct", 0)
+    res.cov["transitions"] += t.get("states", 0)
+    ents = [e for e in corpus_entries(tier, seed + 23, ("curated", "amb_chains", "random_trans", "random_amb", "random_err")) if len(e["rules"]) <= 8]
+    vecs = corpus_vectors(res, scratch, "corpus_mp", ents, trees=False, timeout=3000)
+    matrix = [(la, one, cost, rec, 3, 0) for one in ones for (la, cost, rec) in ((0, 0, 1), (1, 0, 0), (2, 0, 1), (1, 1, 1))]
+    blocks = [b for b in (blocks_from_vector(v, matrix, mems=(1,), want_trees=False, max_cases=12) for v in vecs.values()) if b]
+    recs, st = run_harness(os.path.join(builds[0], "yv_replay"), blocks, args=("-t", "-s", "-m"))
+    for r in recs:
+        if r.get("e") == "Abort":
+            res.violation(abort_key(r), dict(r, block=(r.get("block") or [])[:20]))
+    lines, skipped = mp_lines_from_recs(recs, vecs, CODEMAPS["ascii"])
+    rnd = random.Random(seed)
+    cap = 2000 if tier == "quick" else 30000
+    if len(lines) > cap:
+        lines = rnd.sample(lines, cap)
+    chunks = [lines[i:i + 300] for i in range(0, len(lines), 300)]
+
+    def work(args):
+        i, ch = args
+        return validate_trace(scratch, "MpTrace", ch, "mp_tr%d" % i, timeout=3000), ch
+    ndiag = nev = 0
+    with cf.ThreadPoolExecutor(max_workers=max(1, NCPU // 2)) as ex:
+        for (ok, rej, tt), ch in ex.map(work, list(enumerate(chunks))):
+            if not ok:
+                raise Infra("MpTrace validation did not finish: " + tt["tail"][-2500:])
+            res.cov["states"] += tt.get("distinct", 0)
+            res.cov["transitions"] += tt.get("states", 0)
+            res.cov["traces_validated_against_impl"] += len(ch)
+            nev += sum(len(ln["mp"]) for ln in ch)
+            for (lno, lid, reasons) in rej:
+                for reason in reasons:
+                    if reason.startswith("DIAG"):
+                        ndiag += 1
+                    else:
+                        res.violation("trace|" + reason, {"line": ch[lno - 1], "reason": reason})
+    res.notes["walk_events_validated"] = res.notes.get("walk_events_validated", 0) + nev
+    res.notes["walk_lines_not_usable"] = res.notes.get("walk_lines_not_usable", 0) + skipped
+    res.notes["drift_walk_lines_not_taking_every_reduction_with_all_parses"] = ndiag
+    if lines:
+        res.cov["samples"].append({"walk_trace_line": min(lines, key=lambda ln: abs(len(ln["mp"]) - 12))})
+
+
+
 # ------------------------------------------------------------------ set-level trace validation (EarleyTrace.tla): part of C01 and C09
 def earley_trace_part(res, scratch, tier, seed, builds, props, kinds=("curated", "random", "random_err"), max_parses=None):
     """Record the hook events (every placed Earley set, every fresh re-computation at a cache hit) of corpus parses and let TLC
@@ -1833,6 +1922,28 @@ def selftest():
         got = {x[0] for x in rej if not all(y.startswith("DIAG") for y in x[2])}
         if not ok or not {j1 + 1, j2 + 1} <= got:
             failures.append("EarleyTrace corruption test: corrupted lines %s, rejected %s" % ([j1 + 1, j2 + 1], sorted(got)))
+        # 3b. the translation walk (MpTrace.tla): untouched lines accepted; a moved end of a state, a reduction with another origin and a
+        #     dropped hook event (a state that nothing generated) rejected
+        recs_m, _ = run_harness(os.path.join(b[0], "yv_replay"), blocks, args=("-t", "-s", "-m"))
+        mlines, _ = mp_lines_from_recs(recs_m, vecs, code)
+        mlines = mlines[:80]
+        ok, rej, _ = validate_trace(scratch, "MpTrace", mlines, "self_m0")
+        if not ok or not mlines or [x for x in rej if not all(y.startswith("DIAG") for y in x[2])]:
+            failures.append("MpTrace rejects untouched lines (%d lines): %s" % (len(mlines), rej[:2]))
+        bad = copy.deepcopy(mlines)
+        m1 = next(i for i, ln in enumerate(bad) if len(ln["mp"]) >= 4)
+        k1 = next(k for k, ev in enumerate(bad[m1]["mp"]) if ev[0] == 0 and k >= 2)
+        bad[m1]["mp"][k1][4] += 1                             # a state ends one position later
+        m2 = next(i for i, ln in enumerate(bad) if i != m1 and any(ev[0] == 1 and ev[3] > 0 for ev in ln["mp"]))
+        k2 = next(k for k, ev in enumerate(bad[m2]["mp"]) if ev[0] == 1 and ev[3] > 0)
+        bad[m2]["mp"][k2][3] -= 1                             # a reduction with another origin
+        m3 = next(i for i, ln in enumerate(bad) if i not in (m1, m2) and sum(1 for ev in ln["mp"] if ev[0] == 1) >= 2)
+        k3 = next(k for k, ev in enumerate(bad[m3]["mp"]) if ev[0] == 1)
+        del bad[m3]["mp"][k3]                                 # a hook event is missing: its successor states come from nowhere
+        ok, rej, _ = validate_trace(scratch, "MpTrace", bad, "self_m1")
+        got = {x[0] for x in rej if not all(y.startswith("DIAG") for y in x[2])}
+        if not ok or got != {m1 + 1, m2 + 1, m3 + 1}:
+            failures.append("MpTrace corruption test: corrupted lines %s, rejected %s" % ([m1 + 1, m2 + 1, m3 + 1], sorted(got)))
         # 4. lookahead groups
         groups = [{"id": "g%d" % i, "kind": "C09", "outs": [{"la": 0, "dbg": 0, "obs": {"rc": 0, "trees": ["x"]}}, {"la": 1, "dbg": 0, "obs": {"rc": 0, "trees": ["x"]}}]} for i in range(5)]
         groups[3]["outs"][1]["obs"]["trees"] = ["y"]
